@@ -361,7 +361,7 @@ func (c *Ctx) checkRunBrackets() {
 		datastack := c.field("Zlisp", "datastack")
 		okPop := false
 		for _, r := range returnsOf(run) {
-			if ex, ok := r.Results[0].(*ssa.Extract); ok {
+			if ex, ok := returnedValue(r, 0).(*ssa.Extract); ok {
 				if call, ok := ex.Tuple.(*ssa.Call); ok && call.Call.StaticCallee() != nil && call.Call.StaticCallee().Name() == "PopExpr" {
 					if _, ok := loadOfField(call.Call.Args[0], datastack); ok {
 						okPop = true
